@@ -1160,6 +1160,8 @@ def _run_wide(ctx):
             summed = orun(ctx, [('api_c19_single', [alpha if mode == 'alpha' else beta, list(range(n))])])[0][0]
         clus = None if k % 3 == 1 else (dict(t=rng.randint(1, max(1, min(5, n))), criterion='maxclust') if k % 3 == 2 else
                                         dict(t=rng.choice(between_thresholds(summed)), criterion='distance'))
+        if opts.get('bounds') and (k // len(CMAP_BUNDLES)) % 2 == 0:
+            clus = None         # custom colour bounds with the DEFAULT flat-cluster options: the documented cut (distance 6) does not follow the bounds
         ctx.count('clustermap_wide_%s' % ('n>=24' if n >= 24 else 'long_chains' if shape in (1, 3) else 'small'))
         for name in sorted(opts):
             ctx.count('clustermap_opt_' + name + ('_' + '+'.join(sorted(opts['kws'])) if name == 'kws' else ''))
@@ -1336,6 +1338,14 @@ def _run(ctx):
             ctx.add_vm('api_c19_discrete_sorted', [xs, ys], orun(ctx, [('api_c19_discrete_sorted', [xs, ys])])[0])
         if len(ctx.violations) > 6:
             return
+    # ---- (e0) custom colour-scale bounds and nothing else: the flat clusters are still the documented default cut at distance 6 of the
+    # summed-distance tree (seeded change C19-r7m3: a default cut tied to the last bound).  Pairs at summed distance 4 and 5 decide.
+    for bounds in ([0, 1, 2, 3], [0, 2, 4], [0, 5, 10, 40]):
+        alpha = ['CASSLGF', 'CASSLGFAA', 'CATTLGF', 'CWWWWWWWWWWF', 'CASSLGF']
+        beta = ['CASSF', 'CASGGF', 'CASSF', 'CAYYYYYYYF', 'CASSF']
+        ctx.count('clustermap_custom_bounds_default_cut')
+        vs = chk_clustermap(ctx, alpha, beta, 'paired', list(range(5)), {}, ('cdr3a', 'cdr3b'), None, None, opts=dict(bounds=bounds))
+        _report(ctx, vs)
     # ---- (e) similarity_clustermap
     for k in range(36 if q else 400):
         n = rng.randint(2, 9)
